@@ -328,12 +328,14 @@ func (a AState) ApplyDelta(d json.RawMessage) (AState, error) {
 type Obj struct {
 	n   int  // counter used to vary argument spellings
 	alt bool // alternate between the "no argument" and "nil" ways of removing a closure
+	concurrent bool // several goroutines call into this object (gated / free-running drivers)
 	S   stackage.Stack
 	acc map[string]bool
 	// consult logs of the calls in flight, one per calling goroutine (the policy closure runs in the goroutine that called Push,
 	// so concurrent callers never see each other's consultations)
 	lmu  sync.Mutex
 	logs map[int64][]string
+	lens map[int64][]int // Len() of the stack at each consultation
 }
 
 // goid: the id of the calling goroutine (parsed from the stack header; only used to key the consult logs)
@@ -354,6 +356,9 @@ func (o *Obj) logReset() {
 		o.logs = map[int64][]string{}
 	}
 	delete(o.logs, goid())
+	if o.lens != nil {
+		delete(o.lens, goid())
+	}
 	o.lmu.Unlock()
 }
 
@@ -365,6 +370,22 @@ func (o *Obj) logAdd(v string) {
 	g := goid()
 	o.logs[g] = append(o.logs[g], v)
 	o.lmu.Unlock()
+}
+
+func (o *Obj) lenAdd(n int) {
+	o.lmu.Lock()
+	if o.lens == nil {
+		o.lens = map[int64][]int{}
+	}
+	g := goid()
+	o.lens[g] = append(o.lens[g], n)
+	o.lmu.Unlock()
+}
+
+func (o *Obj) lensGet() []int {
+	o.lmu.Lock()
+	defer o.lmu.Unlock()
+	return append([]int{}, o.lens[goid()]...)
 }
 
 func (o *Obj) logGet() []string {
@@ -407,6 +428,12 @@ func (o *Obj) installPolicy(acc []string) {
 			v = Proj(x[0])
 		}
 		o.logAdd(v)
+		// what the stack holds WHILE the value is being judged (it is not in there yet), and this closure's verdict
+		if mine[v] {
+			o.lenAdd(o.S.Len()*2 + 1)
+		} else {
+			o.lenAdd(o.S.Len() * 2)
+		}
 		if mine[v] {
 			return nil
 		}
@@ -673,8 +700,24 @@ func applyInner(o, d *Obj, c Call) (ret []string) {
 		for i, x := range xs {
 			names[i] = Proj(x)
 		}
+		preLen := o.S.Len()
 		o.S.Push(xs...)
-		ret = append(ret, o.logGet()...)
+		log := o.logGet()
+		ret = append(ret, log...)
+		// the policy judges a value BEFORE it is stored (ListOps!PushPol): at the i-th consultation the stack holds what it held
+		// before the call plus the values approved so far.  Only meaningful when nobody else mutates the stack meanwhile.
+		if lens := o.lensGet(); !o.concurrent && len(lens) == len(log) {
+			want := preLen
+			for i := range log {
+				if lens[i]/2 != want {
+					ret = append(ret, fmt.Sprintf("CONSULT-SAW-LEN[%d]:%d,expected:%d", i, lens[i]/2, want))
+					break
+				}
+				if lens[i]%2 == 1 {
+					want++
+				}
+			}
+		}
 		for i, x := range xs {
 			if Proj(x) != names[i] {
 				ret = append(ret, fmt.Sprintf("CALLER-SLICE-MODIFIED[%d]:%s->%s", i, names[i], Proj(x)))
